@@ -36,8 +36,9 @@ BYTES = b'\x00\xff\x81\x40'
 DARK = (10, 20, 30)
 LIGHT = (200, 210, 220, 128)
 CMAP = {'finder_dark': 'darkblue', 'data_light': (250, 250, 240), 'alignment_dark': '#336699', 'quiet_zone': None}
+MERGE_PARTS = ['AB', 'CD']
 SEQ_TEXT = 'ABCDEFGHIJKLMNOPQRSTUVWXYZ0123456789ABCDEFGHIJKLMNOPQRSTUVWXYZ'
-ARGS = {'PARTS': PARTS, 'KANJI': KANJI, 'BYTES': BYTES, 'DARK': DARK, 'LIGHT': LIGHT, 'CMAP': CMAP}
+ARGS = {'MERGE_PARTS': MERGE_PARTS, 'PARTS': PARTS, 'KANJI': KANJI, 'BYTES': BYTES, 'DARK': DARK, 'LIGHT': LIGHT, 'CMAP': CMAP}
 
 
 def canon_qr(q):
@@ -142,6 +143,12 @@ OPS = {
     'svg_alpha_int': lambda: _save(_small(), 'svg', dark=(255, 0, 0, 1)),
     'make_eci_latin': lambda: segno.make('a' * 17, encoding='iso-8859-1', eci=True, mode='byte', error='L', boost_error=False),
     'make_eci_utf8': lambda: segno.make('a' * 17, encoding='utf-8', eci=True, mode='byte', error='L', boost_error=False),
+    'make_ab': lambda: segno.make('AB', micro=False),
+    'make_ab_cd': lambda: segno.make(MERGE_PARTS, micro=False),
+    'make_q_auto': lambda: segno.make('12345', error='q'),
+    'make_h_auto': lambda: segno.make('Segno', error='h'),
+    'iter_verbose_v2_a': lambda: tuple(segno.make('alignment', version=2, mask=0).matrix_iter(verbose=True)),
+    'iter_verbose_v2_b': lambda: tuple(segno.make('ALIGNMENT', version=2, mask=1).matrix_iter(verbose=True, border=0)),
     'fail_overflow': lambda: segno.make('1' * 8000),
     'fail_colour': lambda: _save(_shared(), 'png', dark='nope'),
     'fail_mode': lambda: segno.make('abc', mode='numeric'),
